@@ -271,7 +271,10 @@ class RunAdapter:
 
         self.go = go
 
-    def run(self, cfg, env, variant=0, order=None):
+    def run(self, cfg, env, variant=0, order=None, pre=None):
+        """pre = optional [{en, bf, rev}, ...]: the interfaces are attached with THESE flags and then brought to the flags of
+        the configuration through the public setters (enabled(b), bolForce(b), reverseAtEOL = b) -- a flag history whose end
+        state is the configuration the specification is given."""
         go, rig = self.go, self.rig
         hist, sl, pw = run_history(cfg["steps"], variant)
         st = go.stack_settings(cfg["ifs"], cfg["dcyc"], cfg["tight"], cfg["cap"], cfg["skip"])
@@ -280,7 +283,16 @@ class RunAdapter:
         o = rig.new_operator()
         sink = []
         b = cfg.get("bolset", 0)
-        go.build_stack(rig, o, cfg["ifs"], sink, env, order=order, sets_start=(b, cfg["sc"], cfg["sn"]) if b else None)
+        ifs0 = cfg["ifs"] if pre is None else [dict(f, **p) for f, p in zip(cfg["ifs"], pre)]
+        recs = go.build_stack(rig, o, ifs0, sink, env, order=order, sets_start=(b, cfg["sc"], cfg["sn"]) if b else None)
+        if pre is not None:
+            for i, (f, p) in enumerate(zip(cfg["ifs"], pre), start=1):
+                if p["en"] != f["en"]:
+                    recs[i].enabled(bool(f["en"]))
+                if p["bf"] != f["bf"]:
+                    recs[i].bolForce(bool(f["bf"]))
+                if p["rev"] != f["rev"]:
+                    recs[i].reverseAtEOL = bool(f["rev"])
         if cfg["tight"]:
             o.addInterface(go.DbStub.make(rig.r, rig.cs, sink), enabled=False)
         # restart point in place at entry, or (bolset) put there by a BOL hook of the stack while operate() starts at (0, 0)
@@ -418,7 +430,10 @@ def run_replay(rep, thorough, seed, rig, fut_emit, max_runs):
             order.reverse()
         elif k % 3 == 2:
             rng.shuffle(order)
-        got, err = ad.run(cfg, env_from_log(go, exp), variant=variant, order=order)
+        # every fourth run reaches the flags of the configuration through a history: attached with all three flags inverted,
+        # then set through enabled(b) / bolForce(b) / reverseAtEOL = b
+        pre = [{"en": not f["en"], "bf": not f["bf"], "rev": not f["rev"]} for f in cfg["ifs"]] if k % 4 == 3 else None
+        got, err = ad.run(cfg, env_from_log(go, exp), variant=variant, order=order, pre=pre)
         _, sl, pw = run_history(cfg["steps"], variant)
         if len(exp) > 2:
             nontrivial += 1
@@ -428,17 +443,17 @@ def run_replay(rep, thorough, seed, rig, fut_emit, max_runs):
                           "Operator.operate() raised %s for configuration %s (after %d of %d expected calls)" % (
                               err, json.dumps(cfg), len(got), len(exp)),
                           {"direction": "run", "part": "run", "cfg": cfg, "expected_log": exp, "variant": variant,
-                           "order": order, "error": err})
+                           "order": order, "pre": pre, "error": err})
         elif d is not None and short_circuit_kinds(exp, got, sl, pw, ad.canon):
             for kind in short_circuit_kinds(exp, got, sl, pw, ad.canon):
                 rep.violation(SC_KEYS[kind], SC_WHAT[kind] + " Configuration %s: %s" % (json.dumps(cfg), d[1]),
                               {"direction": "run", "part": "run", "cfg": cfg, "expected_log": exp, "variant": variant,
-                               "order": order, "diverged_at": d[0], "first_difference": d[1]})
+                               "order": order, "pre": pre, "diverged_at": d[0], "first_difference": d[1]})
         elif d is not None:
             rep.violation("run:%s" % d[2],
                           "real Operator diverges from Operator.tla for configuration %s: %s" % (json.dumps(cfg), d[1]),
                           {"direction": "run", "part": "run", "cfg": cfg, "expected_log": exp, "variant": variant,
-                           "order": order, "diverged_at": d[0], "first_difference": d[1]})
+                           "order": order, "pre": pre, "diverged_at": d[0], "first_difference": d[1]})
     rep.add_replay("operator-runs", len(runs), nontrivial,
                    "one behaviour = one complete run printed by TLC (configuration, environment answers, full call log) "
                    "executed by Operator.operate() on the smallest test reactor with recording interfaces; the recorded "
@@ -479,7 +494,10 @@ def trace_driver(rig, ntraces, seed, big):
         m = len(cfg["ifs"])
         order = list(range(1, m + 1))
         rng.shuffle(order)
-        got, err = ad.run(cfg, env, variant=0, order=order)
+        pre = None
+        if rng.random() < 0.5:  # flag history: random flags at attach time, brought to the configuration's by the setters
+            pre = [{"en": rng.random() < 0.5, "bf": rng.random() < 0.5, "rev": rng.random() < 0.5} for _ in cfg["ifs"]]
+        got, err = ad.run(cfg, env, variant=0, order=order, pre=pre)
         ev = list(got)
         ev.append({"e": "EXC", "what": err} if err else {"e": "END"})
         traces.append({"id": "t%d" % t, "cfg": cfg, "ev": ev})
@@ -543,20 +561,33 @@ class DispatchAdapter:
                                               "tightCouplingSettings": {}, "cyclesSkipTightCouplingInteraction": []})
         o = rig.new_operator()
         rig.reset_time(0, 0)
-        return {"o": o, "sink": [], "err": "", "flags": {}}
+        sink = []
+        # the interfaces are persistent objects (fresh from Interface.__init__): detaching and re-attaching, and every flag
+        # change, act on the same object through its public methods
+        recs = {i: go.recorder_class(i, False)(rig.r, rig.cs, sink, go.ScriptEnv(), {}) for i in range(1, root.get("ni", 3) + 1)}
+        return {"o": o, "sink": sink, "err": "", "recs": recs}
 
     def apply(self, w, a):
         o, go, rig = w["o"], self.go, self.rig
         w["err"] = ""
         try:
-            if a["n"] in ("Add", "AddDuplicate"):
+            if a["n"] == "Add":
                 f = a["f"]
-                flags = {"en": f["en"], "bf": f["bf"], "rev": f["rev"], "dfr": False, "cpl": False, "hlt": False}
-                rec = go.recorder_class(a["i"], False)(rig.r, rig.cs, w["sink"], go.ScriptEnv(), flags)
                 kw = {"reverseAtEOL": f["rev"], "enabled": f["en"], "bolForce": f["bf"]}
                 if a.get("at", -1) >= 0:
                     kw["index"] = a["at"]
-                o.addInterface(rec, **kw)
+                o.addInterface(w["recs"][a["i"]], **kw)
+            elif a["n"] == "AddDuplicate":
+                # a second object with the name of an attached one
+                o.addInterface(go.recorder_class(a["i"], False)(rig.r, rig.cs, w["sink"], go.ScriptEnv(), {}))
+            elif a["n"] == "SetEnabled":
+                w["recs"][a["i"]].enabled(a["b"])
+            elif a["n"] == "SetEnabledBad":
+                w["recs"][a["i"]].enabled("yes")
+            elif a["n"] == "SetBolForce":
+                w["recs"][a["i"]].bolForce(a["b"])
+            elif a["n"] == "SetReverse":
+                w["recs"][a["i"]].reverseAtEOL = a["b"]
             elif a["n"] == "Remove":
                 if not o.removeInterface(interfaceName="rec%d" % a["i"]):
                     w["err"] = "False"
@@ -565,18 +596,17 @@ class DispatchAdapter:
                     w["err"] = "False"
             else:
                 raise AssertionError("unknown action %r" % (a,))
-        except RuntimeError:
-            w["err"] = "RuntimeError"
+        except (RuntimeError, ValueError) as ex:
+            w["err"] = type(ex).__name__
         return w["err"]
 
     def project(self, w):
         o = w["o"]
         names = [i.name for i in o.getInterfaces()]
         out = {"stack": [int(n[3:]) for n in names], "err": w["err"], "q": {}}
-        flags = []
-        for i in o.getInterfaces():
-            flags.append({"en": bool(i.enabled()), "bf": bool(i.bolForce()), "rev": bool(i.reverseAtEOL)})
-        out["flags"] = flags
+        # the flags of every object (attached or not) as its public getters report them
+        out["flags"] = [{"en": w["recs"][i].enabled(), "bf": w["recs"][i].bolForce(), "rev": w["recs"][i].reverseAtEOL}
+                        for i in sorted(w["recs"])]
         return out
 
     def dispatch(self, w, ev, c, excl):
@@ -612,9 +642,9 @@ def run_dispatch(rep, thorough, seed, rig, fut, cap=None):
     if not edges or not consts:
         raise tlc.MachineryError("OperatorDispatch emission printed no edges")
     seen = {e["act"]["n"] for e in edges}
-    if not {"Add", "AddDuplicate", "Remove", "RemoveAbsent"} <= seen:
-        raise tlc.MachineryError("vacuous: OperatorDispatch actions never taken: %s" % (
-            {"Add", "AddDuplicate", "Remove", "RemoveAbsent"} - seen))
+    need = {"Add", "AddDuplicate", "Remove", "RemoveAbsent", "SetEnabled", "SetEnabledBad", "SetBolForce", "SetReverse"}
+    if not need <= seen:
+        raise tlc.MachineryError("vacuous: OperatorDispatch actions never taken: %s" % (need - seen))
     K = consts[0]
     ad = DispatchAdapter(rig, K["dcyc"], K["ncyc"])
     for e in edges:
@@ -628,7 +658,7 @@ def run_dispatch(rep, thorough, seed, rig, fut, cap=None):
     n = nt = nq = 0
     rng = random.Random(seed)
     todo = list(g.edges)
-    cap = cap or (None if thorough else 2500)
+    cap = cap or (None if thorough else 4000)
     if cap and len(todo) > cap:
         todo = rng.sample(todo, cap)
     for e in todo:
@@ -660,8 +690,9 @@ def run_dispatch(rep, thorough, seed, rig, fut, cap=None):
                               {"direction": "dispatch", "part": "dispatch", "path": [s["act"] for s in path] + [e["act"]],
                                "query": q, "active": act, "called": called})
     rep.add_replay("stack-edges", n, nt,
-                   "every edge of OperatorDispatch's graph (addInterface with/without index, duplicate-name refusal, "
-                   "removeInterface) replayed on a real Operator; in each reached state every (event, cycle, exclusion list) "
+                   "every edge of OperatorDispatch's graph (addInterface with/without index on persistent interface objects, "
+                   "duplicate-name refusal, removeInterface, enabled(b) / bolForce(b) / reverseAtEOL = b, enabled(non-bool) "
+                   "refusal) replayed on a real Operator through the public methods; in each reached state every (event, cycle, exclusion list) "
                    "query of the spec is answered by getActiveInterfaces and by the public interactAll* entry point")
     rep.extra["dispatch_queries"] = nq
     return n
@@ -752,7 +783,8 @@ def replay(payload):
     if part == "run":
         ad = RunAdapter(rig)
         cfg, exp = payload["cfg"], payload["expected_log"]
-        got, err = ad.run(cfg, env_from_log(go, exp), variant=payload.get("variant", 0), order=payload.get("order"))
+        got, err = ad.run(cfg, env_from_log(go, exp), variant=payload.get("variant", 0), order=payload.get("order"),
+                          pre=payload.get("pre"))
         _, sl, pw = run_history(cfg["steps"], payload.get("variant", 0))
         d = first_log_difference(exp, got, sl, pw, ad.canon)
         print("configuration:", json.dumps(cfg))
@@ -830,6 +862,10 @@ def mutants():
          "        startingCycle = self.r.p.cycle\n        self.interactAllBOL()\n"),
         ("halt skips EOL", Op, "_mainOperate", "            if not keepGoing:\n                break", "            if not keepGoing:\n                return"),
         ("EOC skipped in the last cycle", Op, "_cycleLoop", "        self.interactAllEOC(self.r.p.cycle)", "        if not self.atEOL:\n            self.interactAllEOC(self.r.p.cycle)"),
+        ("bolForce cannot be cleared", __import__("armi.interfaces", fromlist=["Interface"]).Interface, "bolForce",
+         "        if flag is None:\n            return self._bolForce", "        if not flag:\n            return self._bolForce"),
+        ("enabled() setter ignores False", __import__("armi.interfaces", fromlist=["Interface"]).Interface, "enabled",
+         "        elif isinstance(flag, bool):\n            self._enabled = flag", "        elif isinstance(flag, bool):\n            self._enabled = flag or self._enabled"),
         ("deferred interfaces called at BOL", Op, "getActiveInterfaces", "lambda i: i.name not in self.cs[CONF_DEFERRED_INTERFACE_NAMES]\n                and i.name not in excludedInterfaceNames",
          "lambda i: i.name not in excludedInterfaceNames"),
         ("deferral cycle compared with <=", Op, "getActiveInterfaces", "cycle < self.cs[CONF_DEFERRED_INTERFACES_CYCLE]", "cycle <= self.cs[CONF_DEFERRED_INTERFACES_CYCLE]"),
